@@ -40,7 +40,7 @@ TraceDeep == /\ IsEvent("Deep")
 
 TraceSdf == /\ IsEvent("Sdf")
             /\ LET e == Trace[l]
-               IN Check(e.ok /\ e.with = EnsureWith(e.in) /\ e.without = EnsureWithout(e.in))
+               IN Check(e.ok /\ e.stable /\ e.with = EnsureWith(e.in) /\ e.without = EnsureWithout(e.in))
 
 OnMeta == [n |-> 10, id |-> 0, s |-> "onMetaData"]
 TraceMeta == /\ IsEvent("Meta")
